@@ -75,22 +75,49 @@ def dispatch(ctx):
         r.check('Core_Typ in range(1, 6)' in named['S_CDT'][1], 'only core types 1..5 are named', gtn, construct=XSD + ':get_type_name', key='core-range',
                 msg='get_type_name no longer restricts core types to Core_Typ in range(1, 6)')
     bc = repo.func(XSD + ':build_core_type')
-    table = {}
-    for n in ast.walk(bc):
-        if isinstance(n, ast.If):
-            m = pm.match('s_dt.name == _N', n.test)
-            if m and isinstance(m['_N'], ast.Constant) and len(n.body) == 1:
-                m2 = pm.match('type_name = _T', n.body[0])
-                if m2 and isinstance(m2['_T'], ast.Constant):
-                    table[m['_N'].value] = m2['_T'].value
-    for name, xs in sorted(CORE.items()):
-        r.check(table.get(name) == xs, 'core type %s -> %s' % (name, xs), bc, construct=XSD + ':build_core_type', key='core ' + name,
-                msg='build_core_type maps %s to %s, expected %s' % (name, table.get(name), xs))
-    r.check(table.get('void', 'x') is None, 'void has no declaration', bc, construct=XSD + ':build_core_type', key='core void',
-            msg='build_core_type declares a type for void')
-    ok = pm.contains("_M = ET.Element('xs:simpleType', name=s_dt.name)", bc) and pm.contains("ET.SubElement(_M, 'xs:restriction', base=type_name)", bc)
-    r.check(ok, 'a core type is a simpleType restriction named as modelled', bc, construct=XSD + ':build_core_type', key='core-shape',
-            msg='build_core_type does not emit <xs:simpleType name=...><xs:restriction base=...>')
+    from .. import absint
+
+    def name_eq(e, s, tr):
+        a_, b_ = e['_A'], e['_B']
+        lit, other = (a_, b_) if isinstance(a_, ast.Constant) else (b_, a_)
+        if isinstance(lit, ast.Constant) and isinstance(lit.value, str) and src(other) in ('s_dt.name', 's_dt.Name'):
+            return s['name'] == lit.value
+        return None
+
+    def name_in(e, s, tr):
+        if src(e['_A']) in ('s_dt.name', 's_dt.Name') and isinstance(e['_L'], (ast.Tuple, ast.List, ast.Set)) and \
+                all(isinstance(x, ast.Constant) for x in e['_L'].elts):
+            return s['name'] in [x.value for x in e['_L'].elts]
+        return None
+
+    def element(e, s, tr):
+        s.setdefault('env', {})[e['_M'].id] = 'element'
+        tr.append(('element', src(e['_T']), src(e['_N'])))
+        return True
+
+    def restriction(e, s, tr):
+        b_ = e['_B']
+        tr.append(('base', b_.value if isinstance(b_, ast.Constant) else src(b_), src(e['_P'])))
+        return True
+    it = absint.Interp(bc, [('_A == _B', name_eq), ('_A in _L', name_in)],
+                       [('_M = ET.Element(_T, name=_N)', element), ("ET.SubElement(_P, 'xs:restriction', base=_B)", restriction),
+                        ('s_dt = nav_one(_X).S_DT[17]()', lambda e, s, tr: True), ('s_dt = one(_X).S_DT[17]()', lambda e, s, tr: True)])
+    it.key_equals = lambda k, kn, s: (s['name'] == kn.value) if (src(k) in ('s_dt.name', 's_dt.Name') and isinstance(kn, ast.Constant)) else None
+    for name, xs in sorted(CORE.items()) + [('void', None), ('something_else', None)]:
+        state = {'name': name}
+        out, tr = it.run(state)
+        bases = [t[1] for t in tr if t[0] == 'base']
+        elems = [t for t in tr if t[0] == 'element']
+        returned = out.kind == 'return' and out.value is not None and not (isinstance(out.value, ast.Constant) and out.value.value is None)
+        if xs is not None:
+            ok = returned and bases == [xs] and len(elems) == 1 and elems[0][1] == "'xs:simpleType'" and elems[0][2] in ('s_dt.name', 's_dt.Name') \
+                and isinstance(out.value, ast.Name) and state.get('env', {}).get(out.value.id) == 'element'
+            r.check(ok, 'core type %s -> <xs:simpleType name=...><xs:restriction base=%s>' % (name, xs), bc, construct=XSD + ':build_core_type',
+                    key='core ' + name, msg='build_core_type maps %s to %s (elements %s, result %r), expected a simpleType restriction of %s'
+                                            % (name, bases, elems, out, xs))
+        else:
+            r.check(not returned and not bases, '%s has no declaration' % name, bc, construct=XSD + ':build_core_type', key='core ' + name,
+                    msg='build_core_type declares a type for %s (%s)' % (name, bases))
     bu = repo.func(XSD + ':build_user_type')
     ok = pm.contains('_U = nav_one(s_udt).S_DT[17]()', bu) and pm.contains('_B = nav_one(s_udt).S_DT[18]()', bu) and \
         pm.contains('_N = get_type_name(_B)', bu)
@@ -151,20 +178,101 @@ def attr(ctx):
     lp = [n for n in ast.walk(bc) if isinstance(n, ast.For)]
     ok = len(lp) == 1 and pm.match('nav_many(o_obj).O_ATTR[102]()', lp[0].iter) is not None
     r.check(ok, 'all attributes of the class (R102) are visited', bc, construct=Q, key='iter', msg='build_class does not iterate nav_many(o_obj).O_ATTR[102]()')
-    refv = [pm.match('_R = get_refered_attribute(o_attr)', n) for n in ast.walk(bc) if isinstance(n, ast.Assign)]
-    refv = [m['_R'].id for m in refv if m]
-    r.check(bool(refv) and pm.contains('_S = nav_one(%s).S_DT[114]()' % (refv[0] if refv else 'x'), bc),
-            'the type is taken from the referred base attribute', bc, construct=Q, key='referred',
-            msg='build_class does not type an attribute by the S_DT (R114) of get_refered_attribute(o_attr)')
-    ok = any(isinstance(n, ast.While) and src(n.test) == 'nav_one(s_dt).S_UDT[17]()' and
-             pm.match(['s_dt = nav_one(s_dt).S_UDT[17].S_DT[18]()'], n.body) is not None for n in ast.walk(bc))
-    r.check(ok, 'user types are unwrapped to their base type', bc, construct=Q, key='unwrap', msg='build_class no longer unwraps S_UDT chains (R17/R18)')
-    ok = False
-    for n in ast.walk(bc):
-        if isinstance(n, ast.If) and src(n.test) == 'type_name and (not nav_one(o_attr).O_BATTR[106].O_DBATTR[107]())':
-            ok = pm.match(["ET.SubElement(attributes, 'xs:attribute', name=o_attr.name, type=type_name)"], n.body) is not None
-    r.check(ok, 'a non-derived attribute of a supported type is declared as xs:attribute name/type', bc, construct=Q, key='declare',
-            msg='build_class does not declare <xs:attribute name=o_attr.name type=type_name> exactly for typed, non-derived attributes')
+    # abstract execution of the attribute loop: the attribute's type is a chain of L user types over a base type
+    from .. import absint
+    import itertools
+
+    def val(x, s):
+        return s.get('env', {}).get(x.id) if isinstance(x, ast.Name) else None
+
+    def set_(e, s, v):
+        s.setdefault('env', {})[e['_V'].id] = v
+        return True
+
+    def from_attr(e, s, tr):
+        x = e['_X']
+        ok_ref = pm.match('get_refered_attribute(o_attr)', x) is not None or (isinstance(x, ast.Name) and val(x, s) == 'referred')
+        tr.append(('typed-by', 'referred' if ok_ref else src(x)))
+        return set_(e, s, ('dt', 0))
+
+    def referred(e, s, tr):
+        return set_(e, s, 'referred')
+
+    def udt_of(e, s, tr):
+        v = val(e['_X'], s)
+        if not (isinstance(v, tuple) and v[0] == 'dt'):
+            return False
+        return set_(e, s, ('udt', v[1]) if v[1] < s['L'] else None)
+
+    def base_of_udt(e, s, tr):
+        v = val(e['_X'], s)
+        if not (isinstance(v, tuple) and v[0] == 'udt'):
+            return False
+        return set_(e, s, ('dt', v[1] + 1))
+
+    def base_of_dt(e, s, tr):
+        v = val(e['_X'], s)
+        if not (isinstance(v, tuple) and v[0] == 'dt') or v[1] >= s['L']:
+            return False
+        return set_(e, s, ('dt', v[1] + 1))
+
+    def is_udt(e, s, tr):
+        v = val(e['_X'], s)
+        if isinstance(v, tuple) and v[0] == 'dt':
+            return v[1] < s['L']
+        return None
+
+    def truthy(e, s, tr):
+        x = e['_X']
+        if isinstance(x, ast.Name) and x.id in s.get('env', {}):
+            v = s['env'][x.id]
+            if v == 'type_name':
+                return s['supported']
+            return v is not None
+        return None
+
+    def named(e, s, tr):
+        v = val(e['_X'], s)
+        tr.append(('named', v))
+        return set_(e, s, 'type_name')
+
+    def declare(e, s, tr):
+        tr.append(('declare', src(e['_N']), val(e['_T'], s)))
+        return True
+    atoms = [('nav_one(_X).S_UDT[17]()', is_udt), ('one(_X).S_UDT[17]()', is_udt),
+             ('nav_one(_X).S_UDT[17].S_DT[18]()', is_udt), ('one(_X).S_UDT[17].S_DT[18]()', is_udt),
+             ('nav_one(o_attr).O_BATTR[106].O_DBATTR[107]()', lambda e, s, tr: s['derived']),
+             ('one(o_attr).O_BATTR[106].O_DBATTR[107]()', lambda e, s, tr: s['derived']), ('_X', truthy)]
+    effects = [('_V = get_refered_attribute(o_attr)', referred),
+               ('_V = nav_one(_X).S_DT[114]()', from_attr), ('_V = one(_X).S_DT[114]()', from_attr),
+               ('_V = nav_one(_X).S_UDT[17].S_DT[18]()', base_of_dt), ('_V = one(_X).S_UDT[17].S_DT[18]()', base_of_dt),
+               ('_V = nav_one(_X).S_UDT[17]()', udt_of), ('_V = one(_X).S_UDT[17]()', udt_of),
+               ('_V = nav_one(_X).S_DT[18]()', base_of_udt), ('_V = one(_X).S_DT[18]()', base_of_udt),
+               ('_V = get_type_name(_X)', named),
+               ("ET.SubElement(attributes, 'xs:attribute', name=_N, type=_T)", declare),
+               ("_V = ET.Element(__, name=__, minOccurs='0', maxOccurs='unbounded')", lambda e, s, tr: True),
+               ("_V = ET.SubElement(__, 'xs:complexType')", lambda e, s, tr: True), ("_V = ET.SubElement(__, 'xs:sequence')", lambda e, s, tr: True)]
+    it = absint.Interp(bc, atoms, effects, iters=[('nav_many(o_obj).O_ATTR[102]()', lambda e, s, tr: ['attr']),
+                                                   ('many(o_obj).O_ATTR[102]()', lambda e, s, tr: ['attr'])])
+    it.skip = lambda st: isinstance(st, ast.Assign) and isinstance(st.value, ast.Call) and (dotted(st.value.func) or '').startswith('ET.') or \
+        (isinstance(st, ast.Expr) and isinstance(st.value, ast.Call) and (dotted(st.value.func) or '').startswith('ET.')
+         and "'xs:attribute'" not in src(st))
+    for L, supported, derived in itertools.product([0, 1, 2], [True, False], [True, False]):
+        state = {'L': L, 'supported': supported, 'derived': derived}
+        out, tr = it.run(state)
+        namedv = [t[1] for t in tr if t[0] == 'named']
+        typed = [t[1] for t in tr if t[0] == 'typed-by']
+        decl = [t for t in tr if t[0] == 'declare']
+        desc = 'attribute typed by %d user type(s) over a %s base type, %s' % (L, 'supported' if supported else 'unsupported', 'derived' if derived else 'not derived')
+        r.check(typed == ['referred'], desc + ': the type is taken from the referred base attribute (R114)', bc, construct=Q, key='referred',
+                msg='build_class types an attribute by %s, not by the S_DT (R114) of get_refered_attribute(o_attr)' % typed)
+        r.check(namedv == [('dt', L)], desc + ': user types are unwrapped to their base type before it is named', bc, construct=Q, key='unwrap',
+                msg='%s: build_class names the type %s; it must unwrap the S_UDT chain (R17/R18) down to the base type %s' % (desc, namedv, ('dt', L)))
+        want = [('declare', 'o_attr.name', 'type_name')] if (supported and not derived) else []
+        r.check([tuple(d) for d in decl] == want or ([(d[0], d[1].replace('.Name', '.name'), d[2]) for d in decl] == want),
+                desc + ': %s' % ('declared as xs:attribute name/type' if want else 'omitted'), bc, construct=Q, key='declare',
+                msg='%s: build_class emits %s; an attribute is declared (name=o_attr.name, type=<base type name>) exactly when its type is '
+                    'supported and it is not derived' % (desc, decl))
     r.check(pm.contains("_C = ET.Element('xs:element', name=o_obj.key_lett, minOccurs='0', maxOccurs='unbounded')", bc),
             'one element per class, named by its key letters', bc, construct=Q, key='element', msg='build_class does not create <xs:element name=key_lett>')
     gr = repo.func(XSD + ':get_refered_attribute')
